@@ -41,7 +41,7 @@ PROPS = {
         ],
     },
     "C04": {
-        "units": ["transcripts", "verify", "prove"],
+        "units": ["transcripts", "verify", "prove", "prove_wrapper"],
         "design_ref": "DESIGN.md section 7, C04",
         "technique": "contract-based deductive verification (Verus): ghost-log model of merlin; real TranscriptProtocol impl, RangeProofTranscript and verify proved to absorb exactly the specified sequence before each challenge",
         "claim": "Every challenge (y, z, each round e_j, final e) derived by the verifier is proved to equal the transcript oracle applied to exactly the specified log: "
